@@ -1014,4 +1014,106 @@ theorem spatial_source_into_flat_target_gradient {c h w kh kw k : ℕ} (n : Netw
     rw [← this]
     exact h6
 
+open LayerChain SkipWalk SkipNet SkipPad SkipMLP VJP ChainLinks DenseStack DenseBridge in
+/-- **every weight matrix of a perceptron of arbitrary widths with any table of additive skip connections**: the weight
+    gradient `Network.backward` records for layer `c'` (walk position `ds.length - (c'+1)`: the walk goes from the last
+    layer to the first) is, entry by entry, the partial derivative of the objective with respect to that entry of the
+    layer's weight matrix.  `FW W'` is the network output with layer `c'` using the weights `W'` (its processed input
+    does not depend on its own weights; every other layer computes what it computed before on what it now receives —
+    `parametrised_values_spec`). -/
+theorem mlp_any_widths_weight_gradient {W : ℕ} (n : Network ℝ) (ds : List (DLayer W)) (tbl : List (Nat × Nat))
+    (hl : n.layers = ds.map (fun d => .dense (denseLayer d.a d.Wt d.b)))
+    (hc : n.connect = tbl) (hacc : n.skipaccumulation = .add) (hlb : n.loopbacks = [])
+    (hkeys : (tbl.map Prod.fst).Nodup) (hbd : ∀ e ∈ tbl, e.2 ≤ e.1 ∧ e.1 < ds.length)
+    (hw : ∀ e ∈ tbl, slotAt ds e.1 = slotAt ds e.2)
+    (hfit : Fits ds) (hv : ∀ d ∈ ds, d.Valid)
+    (x₀ : Vec (slotAt ds 0).val) (ℓ : V (Σ k, TW W k) → ℝ) (g : V (Σ k, TW W k))
+    (c' : Nat) (d : DLayer W) (hd : ds[c']? = some d) :
+    let N := dagNet (ds.map dlink) tbl
+    let x := emb (TW W) (slotAt ds 0) x₀
+    let p := proj (TW W) d.k₁ (SkipDag.P N c' x)
+    let lay := fun W' : V (Fin d.k₂.val × Fin d.k₁.val) => emb (TW W) d.k₂ (denseFn (Act.f d.a) W' d.b p)
+    let bθ := fun δ : V (Σ k, TW W k) => weightGrad (delta (Act.df d.a) (densePre d.Wt d.b p) (proj (TW W) d.k₂ δ)) p
+    let FW := fun W' => SkipDagP.U (SkipDagP.paramNet N x c' lay bθ) ds.length W'
+    (∀ (j : Nat) d', ds[j]? = some d' → ∀ i, NoKink d'.a (densePre d'.Wt d'.b (proj (TW W) d'.k₁ (SkipDag.P N j x)) i)) →
+    IsGrad ℓ (SkipDag.U N ds.length x) g →
+    ∃ t ws bs gs ω,
+      n.forward (vecT x₀) = .ok t ∧ n.backward (emW ds ds.length g) t = .ok (ws, bs, gs) ∧
+      ws[ds.length - (c' + 1)]? = some (.one (matT ω)) ∧
+      FW d.Wt = SkipDag.U N ds.length x ∧
+      ∀ q, HasDerivAt (fun r => ℓ (FW (Function.update d.Wt q r))) (ω q) (d.Wt q) := by
+  intro N x p lay bθ FW hk hg
+  have hcl : c' < ds.length := by
+    rcases Nat.lt_or_ge c' ds.length with h1 | h1
+    · exact h1
+    · rw [List.getElem?_eq_none h1] at hd; cases hd
+  have hlen : (ds.map dlink).length = ds.length := List.length_map _
+  let head : Chain (UIdx (TW W)) (emW ds 0) (UIdx (TW W)) (emW ds 0) := Chain.nil _ _
+  let tail : Chain (UIdx (TW W)) (emW ds (ds.map dlink).length) (UIdx (TW W)) (emW ds (ds.map dlink).length) := Chain.nil _ _
+  have hnet : IsDagNet (em := emW ds) head (ds.map dlink) tbl tail n := by
+    refine ⟨?_, ?_, hacc, hlb, hkeys, ?_⟩
+    · rw [hl]; simp [LayerChain.layers, head, tail, dlink, liftLink]
+    · rw [hc]
+      simp only [LayerChain.layers, head, List.length_nil]
+      have : shift 0 = id := by funext e; simp [shift]
+      rw [this, List.map_id]
+    · simpa using hbd
+  have hget : ∀ (j : Nat) (lk : Link (UIdx (TW W))), (ds.map dlink)[j]? = some lk → ∃ d', ds[j]? = some d' ∧ lk = dlink d' := by
+    intro j lk hlk
+    rw [List.getElem?_map] at hlk
+    cases hq : ds[j]? with
+    | none => rw [hq] at hlk; cases hlk
+    | some d' => rw [hq] at hlk; simp only [Option.map_some, Option.some.injEq] at hlk; exact ⟨d', rfl, hlk.symm⟩
+  have hcomp : ∀ t s, Assoc.find? tbl t = some s → Compat (emW ds t) (emW ds s) := by
+    intro t s hts
+    have := hw (t, s) (SkipTable.find?_mem tbl t s hts)
+    simp only at this
+    unfold emW
+    rw [this]
+    exact compat_same (TW W) encW _ (encAdd_W _)
+  have hb : ∀ j (lk : Link (UIdx (TW W))), (ds.map dlink)[j]? = some lk →
+      IsVJP lk.f (SkipDag.P N j ((gnet head).fwd x)) (lk.b (SkipDag.P N j ((gnet head).fwd x))) := by
+    intro j lk hlk
+    obtain ⟨d', hd', rfl⟩ := hget j lk hlk
+    exact dlink_vjp d' (hv d' (List.mem_of_getElem? hd')) _ (hk j d' hd')
+  have hgU : IsGrad ℓ (dagFn (em := emW ds) head (ds.map dlink) tbl tail x) g := by
+    show IsGrad ℓ (SkipDag.U N (ds.map dlink).length x) g
+    rw [hlen]; exact hg
+  obtain ⟨t, ws, bs, gs, γ, h1, _, h3, _, _, hwts⟩ :=
+    dag_network_gradient (em := emW ds) head (ds.map dlink) tbl tail n hnet hcomp x
+      trivial
+      (fun j lk hlk => by
+        obtain ⟨d', hd', rfl⟩ := hget j lk hlk
+        exact dlink_real ds hfit j d' hd' (hv d' (List.mem_of_getElem? hd')) _)
+      trivial trivial hb trivial ℓ g hgU
+  have hlk : (ds.map dlink)[c']? = some (dlink d) := by rw [List.getElem?_map, hd]; rfl
+  have hidx : (ds.map dlink).length - ((ds.length - (c' + 1)) + 1) = c' := by rw [hlen]; omega
+  have hwc := (hwts (ds.length - (c' + 1)) (dlink d) (by rw [hlen]; omega) (by rw [hidx]; exact hlk)).1
+  rw [hidx] at hwc
+  simp only [LayerChain.layers, tail, List.length_nil, Nat.zero_add] at hwc
+  have hdv := hv d (List.mem_of_getElem? hd)
+  have hder : ∀ i, HasDerivAt (Act.f d.a) (Act.df d.a (densePre d.Wt d.b p i)) (densePre d.Wt d.b p i) :=
+    fun i => DenseStack.act_hasDerivAt d.a hdv.1 _ (hk c' d hd i)
+  have hθ : IsVJP lay d.Wt bθ := by
+    have h1 := dense_vjp_weights (Act.f d.a) (Act.df d.a) d.Wt d.b p hder
+    have h2 := isVJP_emb (TW W) d.k₂ (denseFn (Act.f d.a) d.Wt d.b p)
+    exact IsVJP.comp h1 h2
+  obtain ⟨hval, hgrad⟩ := dag_parameter_gradient (em := emW ds) head (ds.map dlink) tbl tail n hnet x hb trivial c'
+    (by rw [hlen]; exact hcl) (dlink d) hlk lay bθ d.Wt rfl hθ ℓ g hgU
+  have hfun : dagParamFn (em := emW ds) head (ds.map dlink) tbl tail c' lay bθ x = FW := by
+    funext W'
+    show SkipDagP.U (SkipDagP.paramNet N x c' lay bθ) (ds.map dlink).length W' = _
+    rw [hlen]
+  rw [hfun] at hval hgrad
+  have eidx : (ds.map dlink).length - (c' + 1) = ds.length - (c' + 1) := by rw [hlen]
+  rw [eidx] at hgrad
+  refine ⟨t, ws, bs, gs, _, ?_, ?_, hwc, ?_, fun q => hgrad.partial q⟩
+  · have : emW ds 0 x = vecT x₀ := by simp only [emW, encAt, encW, x, proj_emb]
+    rw [← this]; exact h1
+  · have : emW ds (ds.map dlink).length g = emW ds ds.length g := by rw [hlen]
+    rw [← this]; exact h3
+  · rw [hval]
+    show SkipDag.U N (ds.map dlink).length x = _
+    rw [hlen]
+
 end C16
